@@ -299,7 +299,8 @@ class ImageWriter:
         name = image_name + ext
         path = os.path.join(self.outdir, name)
         img_index = 0
-        while os.path.exists(path):
+        # lexists: a dangling symbolic link is an existing name, too
+        while os.path.lexists(path):
             name = "%s.%d%s" % (image_name, img_index, ext)
             path = os.path.join(self.outdir, name)
             img_index += 1
